@@ -136,7 +136,12 @@ class SetImpl:
             nm = self.names()
             items = [f"{nm.get(id(a), '?')}:{a.unique_id}:{a.w}:{nm.get(id(a.model), '?')}" for a in s]
             rem = s.random.remaining() if isinstance(s.random, ScriptedRandom) else ["?"]
-            return "ok " + " ".join(items) + " | " + " ".join(str(x) for x in rem)
+            # len() and indexing go through the weak dictionary's own bookkeeping, iteration through the references
+            try:
+                last = nm.get(id(s[len(s) - 1]), "?") if len(s) else "-"
+            except IndexError:
+                last = "IndexError"
+            return "ok " + " ".join(items) + " | " + " ".join(str(x) for x in rem) + f" | len={len(s)} last={last}"
         if k == "reg":
             model = self.model(int(ws[1]))
             if model is None:
@@ -277,12 +282,18 @@ def oracle(sc, obs):
                 if r1 and r2 and r1.startswith("ok") and r2.startswith("ok"):
                     def strip(r):
                         items, _, g = r[3:].partition(" | ")
+                        g = g.partition(" | ")[0]
                         return [tuple(t.split(":")[1:3]) for t in items.split()], g
                     if strip(r1) != strip(r2):
                         bad.append(f"set-faithful: after `{l}` the copy shows {r2!r}, the original {r1!r}")
         elif k == "members":
             s = int(ws[1])
             if o.startswith("ok"):
+                items = o[3:].partition(" | ")[0].split()
+                tail = o.rpartition(" | ")[2].split()
+                want = f"len={len(items)} last={items[-1].split(':')[0] if items else '-'}"
+                if " ".join(tail) != want:
+                    bad.append(f"set-consistent: set {s} iterates over {len(items)} members but reports '{' '.join(tail)}' (line {i})")
                 if s in last:
                     prev = last[s]
                     foreign_only = all(all(find(x) != find(s) for x in opnds) for opnds in ops_since.get(s, []))
